@@ -13,6 +13,17 @@ CHECKS = {
         note="trusts CPython's operator module/eval and the 30-line native evaluator in mc/exprs.py; contexts are small integers; "
              "str % placeholder (not overloadable), `in` and list_ inside operators are documented-out",
         design="§3 C11"),
+    "C20": dict(
+        technique="explicit-state BFS over container operation histories against a plain-dict reference model; exhaustive pair/triple enumeration for equality laws; exhaustive byte-string x line-size enumeration for hexdump",
+        text="Every history of container operations up to depth 3 (quick) / 4 (thorough) over the key/value alphabet is executed on a "
+             "real Container next to a dict reference; states are canonicalised and deduplicated; in every reached state all views "
+             "agree with the reference and six copy operators (copy(), copy.copy, deepcopy, pickle protocols 2 and 5, constructor) "
+             "are checked for equality, type, view coherence, independence at the promised depth and equal one-step futures. "
+             "Equality laws are checked on all pairs / all triples of a generated family, search against a reference DFS, and "
+             "hexundump(hexdump) on every byte string of the alphabet for every line size.",
+        note="trusts CPython dict/list as the reference and pickle/copy as the definition of a copy; nested dict-likes are "
+             "Container/ListContainer as parsing produces them; keys/values come from a finite alphabet",
+        design="§3 C20"),
 }
 
 PENDING_REASON = "check not built yet in this round (see DESIGN.md §7 build order); it will be decided by the same bounded-exhaustive engine"
